@@ -5,6 +5,14 @@ HOME = os.path.dirname(os.path.dirname(os.path.abspath(__file__)))
 sys.path.insert(0, HOME)
 
 CHECKS = {
+ "C10": dict(engine="E3 probe bus + E4 sweep", technique="runtime monitor at the activator hook (multiset of cell-family targets vs ground-truth partners, cell-veto domain enumerated by driving a copy of the real handler with scripted draws) + contract sweep of the real FactorTypeMaps against an independent parser",
+    level="exploration", ref="DESIGN.md §3 C10",
+    text="After every activator call of shipped and generated cell scenarios (cell-veto, cell-bounding, nearby-only; occupant limits 1, 2, unbounded; units on cell faces, several per cell) the targets of the nearby, surplus and far families are collected as a multiset and compared with all other relevant units from the true positions; generated and shipped factor files are instantiated for every active point mass and compared with the harness parser.",
+    note="The cell-veto domain is read from the handler's stored offsets and mapped through the real translate; sampled targets must lie in it. For hard-core configurations without a far family only nearby+surplus coverage is judged."),
+ "C18": dict(engine="E4 contract sweep", technique="runtime contract monitor integrating over scripted random draws: alias table rows enumerated and the uniform integrated by probing+bisection; real cell-veto handler driven with scripted choice/uniform/expovariate",
+    level="exploration", ref="DESIGN.md §3 C18",
+    text="Thousands of rate vectors (n<=2000, zeros, equal, 1e15 spread) go through the real Walker; exact selection probabilities are reconstructed from the code's own answers and compared with rate/total, zero-rate cells must never be selected (incl. u=0). A real LeafUnitCellVetoEventHandler on real periodic cells with a real estimator is driven: candidate time vs E/(beta*total*|c|*speed), target-offset distribution vs bound/total, confirmation limit vs the bound recomputed by the harness for the target's offset, empty target cell.",
+    note="Assumes draws go through random.choice/uniform/expovariate. Composite-object cell-veto variant is exercised in runs (C04/C07-C10), not in the scripted driver."),
  "C07": dict(engine="E3 probe bus", technique="invariant monitor at the commit hook of the real mediator loop (full by-value state snapshots before/after every event) over shipped and generated scenarios",
     level="exploration", ref="DESIGN.md §3 C07",
     text="The real mediator loop of all 19 shipped configurations and of generated systems (soft/LJ/hard spheres, cells, cell-bounding, molecules with mode switching, both schedulers) is run with transparent proxies at its public boundaries; at every commit time order, continuity of every unit (single congruence relation), 'inactive units do not move' (bitwise), single chain with conserved speed, positions in [0,L), identities and charges are decided on value snapshots.",
